@@ -2,7 +2,7 @@
    rejected.  Only statements, each closed by [exact <lemma>] and followed by Print Assumptions. *)
 From Coq Require Import String.
 From Coq Require Import List Arith Ascii NArith ZArith QArith Bool Lia.
-From AIT Require Import C18.Model C18.Spec C18.Proofs C18.ProofsSafe C18.ProofsSem C18.ProofsPrint C18.ProofsPrint2 C18.ProofsReject C18.ProofsCheck C18.ProofsReuse C18.ProofsForms C18.ProofsLex3 C18.ProofsWhole.
+From AIT Require Import C18.Model C18.Spec C18.Proofs C18.ProofsSafe C18.ProofsSem C18.ProofsPrint C18.ProofsPrint2 C18.ProofsReject C18.ProofsCheck C18.ProofsReuse C18.ProofsForms C18.ProofsLex3 C18.ProofsWhole C18.ProofsSigned.
 Import ListNotations.
 Local Close Scope Q_scope.
 Local Close Scope string_scope.
@@ -337,4 +337,69 @@ Proof.
   - apply wfb_sound_lemma. vm_compute. reflexivity.
   - apply rendersb_sound_lemma. vm_compute. reflexivity.
   - intros Hok. apply validate_ok in Hok. vm_compute in Hok. discriminate.
+Qed.
+
+(* ---------------------------------------------------------------- signed index tokens
+   std::stoul accepts a leading '+' or '-' and negates in unsigned arithmetic.  The index-token grammar of
+   the code is therefore: digits = the number; "+" digits = the number; "-" digits = 2^64 - number
+   (0 for "-0"); 2^64 and above: exception. *)
+Theorem stoul_signed : forall ds, digits ds ->
+  stoul ds = (if (two64 <=? dec_value ds)%N then Throw E_stoul else Ok (dec_value ds)) /\
+  stoul (plus :: ds) = (if (two64 <=? dec_value ds)%N then Throw E_stoul else Ok (dec_value ds)) /\
+  stoul (minus :: ds) = (if (two64 <=? dec_value ds)%N then Throw E_stoul else Ok ((two64 - dec_value ds) mod two64)%N).
+Proof. intros ds H. split; [apply stoul_plain; exact H| split; [apply stoul_plus; exact H| apply stoul_minus; exact H]]. Qed.
+Print Assumptions stoul_signed.
+
+(* a NEGATIVE index (any "-k" with 0 < k <= 2^64 - max) is rejected by the range check in every position *)
+Theorem negative_index_rejected : forall names max ds,
+  digits ds -> 0 < max -> (0 < dec_value ds)%N -> (dec_value ds + N.of_nat max <= two64)%N -> ~ In (minus :: ds) names ->
+  parseIndeces (minus :: ds) (index_pairs names 0) max = Throw E_index_high.
+Proof. exact negative_index_rejected_lemma. Qed.
+Print Assumptions negative_index_rejected.
+
+(* ... it is a [bad_tok], so [incomplete_rejected] (D_index, D_index_reward: every slot of T, O and R lines in
+   entry, row and matrix form) covers files with negative indices *)
+Theorem negative_bad_tok : forall names size ds,
+  digits ds -> 0 < size -> (0 < dec_value ds)%N -> (dec_value ds + N.of_nat size <= two64)%N -> ~ In (minus :: ds) names ->
+  bad_tok names size (minus :: ds).
+Proof. exact negative_bad_tok_lemma. Qed.
+Print Assumptions negative_bad_tok.
+
+Theorem minus_zero_index : forall ds m max, digits ds -> dec_value ds = 0%N -> 0 < max ->
+  lookup m (minus :: ds) = None -> parseIndeces (minus :: ds) m max = Ok [0].
+Proof. exact minus_zero_index_lemma. Qed.
+Print Assumptions minus_zero_index.
+
+Example ex_signed_indices :   (* with 2 states: "-1" "-2" rejected; "-0" "+1" "01" accepted; "-18446744073709551615" wraps to 1 *)
+  parseIndeces (ex_s "-1") [] 2 = Throw E_index_high /\ parseIndeces (ex_s "-2") [] 2 = Throw E_index_high /\
+  parseIndeces (ex_s "-0") [] 2 = Ok [0] /\ parseIndeces (ex_s "+1") [] 2 = Ok [1] /\ parseIndeces (ex_s "01") [] 2 = Ok [1] /\
+  parseIndeces (ex_s "-99999999999999999999") [] 2 = Throw E_stoul /\
+  parseIndeces (ex_s "-18446744073709551615") [] 2 = Ok [1] /\
+  digits (ex_s "1") /\ dec_value (ex_s "1") = 1%N.
+Proof. repeat split; try (vm_compute; reflexivity). discriminate. Qed.
+
+(* a whole file with a negative end-state index is [incomplete] *)
+Example ex_incomplete_negative :
+  incomplete false (lex_text (txt ["states: 2"; "actions: 1"; "T: 0 : 1 : -1 0.25"]%string)).
+Proof.
+  set (ls := lex_text _).
+  apply (Inc_defect false ls [SStates (DNum 2); SActions (DNum 1)] []
+           [[nth 0 ls (mkLine KOther 0 [] None [] [])]; [nth 1 ls (mkLine KOther 0 [] None [] [])]] []
+           [nth 2 ls (mkLine KOther 0 [] None [] [])]).
+  - apply wfb_sound_lemma. vm_compute. reflexivity.
+  - cbn [app]. change (hdr_of _) with (mkHdr 2 1 0 [] [] [] (VQ 1%Q)).
+    constructor; [| constructor; [| constructor]].
+    + eexists. split; [reflexivity|]. split; [reflexivity|]. split; [vm_compute; discriminate|]. eexists. split; vm_compute; reflexivity.
+    + eexists. split; [reflexivity|]. split; [reflexivity|]. split; [vm_compute; discriminate|]. eexists. split; vm_compute; reflexivity.
+  - constructor.
+  - cbn [app]. change (hdr_of _) with (mkHdr 2 1 0 [] [] [] (VQ 1%Q)).
+    apply (D_index false _ _ TT 3 (ex_s "-1") []); try (vm_compute; reflexivity); try (vm_compute; lia).
+    apply (negative_bad_tok_lemma [] 2 (ex_s "1")).
+    + split; [discriminate| reflexivity].
+    + lia.
+    + vm_compute. reflexivity.
+    + vm_compute. discriminate.
+    + intros [].
+  - constructor; [vm_compute; exact I| constructor].
+  - vm_compute. reflexivity.
 Qed.
